@@ -168,6 +168,10 @@ func jobsFor(prop, tier string) []Job {
 			add("family", fmt.Sprintf("btree%d.iterfamily.u%d", m, pick(48, 80)), 10, map[string]string{"c": "btree", "cmp": "nat", "check": "iter"}, map[string]int{"u": pick(48, 80), "m": m})
 		}
 		rewoundJobs("all", q, add)
+		largeJobs("iter", q, largeSeqLike, add)
+		if !q {
+			largeJobs("rewound", q, largeSeqLike, add)
+		}
 	case "C13":
 		for _, c := range []string{"hashset", "linkedhashset", "treeset"} {
 			add("setalgbig", c+".large", 5, map[string]string{"c": c}, map[string]int{"maxa": pick(40, 80)})
@@ -237,6 +241,7 @@ func jobsFor(prop, tier string) []Job {
 			add("json11", jb.id, jb.w, jb.s, jb.p)
 		}
 		jsonFamilyJobs(q, add)
+		largeJobs("roundtrip", q, append([]string{"hashset"}, largeSeqLike...), add)
 	case "C12":
 		cj := jsonContainerJobs(q, pick(2, 3), pick(2, 3))
 		// comparators with ties between distinct JSON keys / elements (the reference is relational:
@@ -371,6 +376,7 @@ func jobsFor(prop, tier string) []Job {
 		for _, jb := range allContainerJobs(q) {
 			add("snap", jb.id, jb.w, jb.s, jb.p)
 		}
+		largeJobs("snap", q, append([]string{"hashset"}, largeSeqLike...), add)
 	case "C09":
 		u := pick(5, 6)
 		add("linked", fmt.Sprintf("linkedhashmap.u%d", u), 2, map[string]string{"c": "linkedhashmap"}, map[string]int{"u": u})
@@ -558,6 +564,26 @@ func rewoundJobs(group string, q bool, add func(kind, id string, w int, s map[st
 		add("rewound", "rewound.btree3", 8, map[string]string{"c": "btree"}, map[string]int{"m": 3, "n": pick(7, 9), "rank": 1, "pairs": 2})
 	}
 }
+
+// largeJobs: the nested enumeration `check` of a property at sizes 64, 128, 192, .. of large containers (c18.go largeStatesJob)
+func largeJobs(check string, q bool, cs []string, add func(kind, id string, w int, s map[string]string, p map[string]int)) {
+	ln := 200
+	if !q {
+		ln = 300
+	}
+	for _, c := range cs {
+		p := map[string]int{"n": ln, "deep": 1, "every": 64}
+		if (c == "binaryheap" || c == "priorityqueue") && (check == "iter" || check == "rewound") {
+			p["n"] = ln * 13 / 20 // heap iterators cost O(level width) per element: 130 / 195 (a level of 64 and the one after it)
+		}
+		if c == "circularbuffer" {
+			p["cap"] = p["n"]
+		}
+		add("largestates", check+"."+c+".large", 30, map[string]string{"c": c, "check": check}, p)
+	}
+}
+
+var largeSeqLike = []string{"arraylist", "singlylinkedlist", "doublylinkedlist", "arraystack", "linkedliststack", "arrayqueue", "linkedlistqueue", "circularbuffer", "binaryheap", "priorityqueue", "linkedhashset", "linkedhashmap"}
 
 type cjob struct {
 	id string
